@@ -74,13 +74,16 @@ def main(argv):
     errors = []
 
     # 1. regression replay tier (seconds): minimal inputs of every confirmed finding
-    regdir = os.path.join(fw.VERIF_DIR, 'replays', 'regressions')
     nreg = 0
     reg_known = {}
-    for fn in sorted(os.listdir(regdir)) if os.path.isdir(regdir) else []:
+    saved = []
+    for sub in ('regressions', 'corpus'):
+        dd = os.path.join(fw.VERIF_DIR, 'replays', sub)
+        saved += [os.path.join(dd, fn) for fn in sorted(os.listdir(dd))] if os.path.isdir(dd) else []
+    for path in saved:
+        fn = os.path.basename(path)
         if not fn.endswith('.json'):
             continue
-        path = os.path.join(regdir, fn)
         with open(path) as f:
             r = json.load(f)
         if r['property'] != prop:
